@@ -302,8 +302,16 @@ def run_cli(desc, ctx):
         else:
             inp["cells"][k_]["obs"] = rng.choice(grid)
             inp["cells"][k_]["fcst"] = rng.choice(grid)
+    # a few infinite values (a sensor overflow written as inf / -inf): an infinite observation or forecast is not a valid pair
+    if desc["k"] % 2 == 1:
+        rinf = random.Random("C06-inf-%s-%s" % (desc["seed"], desc["k"]))
+        for k_ in sorted(inp["cells"]):
+            if k_ not in mine and rinf.random() < 0.12:
+                inp["cells"][k_][rinf.choice(["obs", "fcst"])] = rinf.choice([float("inf"), float("-inf")])
+                ctx.count("cli_infinite_values")
     path = gen.write_input(inp, d, None)
-    pairs = [(c["obs"], c["fcst"]) for c in inp["cells"].values() if c["obs"] is not None and c["fcst"] is not None]
+    pairs = [(c["obs"], c["fcst"]) for c in inp["cells"].values() if c["obs"] is not None and c["fcst"] is not None
+             and abs(c["obs"]) != float("inf") and abs(c["fcst"]) != float("inf")]
     for name in sorted(cat_metrics()):
         b = rng.choice(BINS)
         ul, lc, uu, uc = attach.BIN_TABLE[b]
@@ -376,6 +384,8 @@ def run_cli(desc, ctx):
                 for i in range(nev):
                     a = bb = c = dd = 0
                     for ov, fv in cs:
+                        if abs(ov) == float("inf") or abs(fv) == float("inf"):
+                            continue        # not a valid pair
                         eo = attach.in_documented_event(ov, b, tsub[i], tsub[i + 1] if (ul and uu) else None)
                         ef = attach.in_documented_event(fv, b, tsub[i], tsub[i + 1] if (ul and uu) else None)
                         a += ef and eo
